@@ -221,6 +221,15 @@ RR_ITEMS = lambda pid, what: [
 ]
 PX("C02", "C02_return", "Acknowledgement is final and affects only that delivery: what 'Acknowledge has returned' means", HDR_RR, "ReqRespP.v", RR_ITEMS("C02", "acknowledgement"))
 PX("C05", "C05_return", "ModifyAckDeadline: the new deadline is in force when the call returns", HDR_RR, "ReqRespP.v", RR_ITEMS("C05", "modification"))
+HDR_ALOOP = "From Coq Require Import List Arith Bool.\nImport ListNotations.\nFrom Deltio Require Import Model.ActorLoop Proofs.ActorLoopP.\n"
+PX("C04", "C04_loop", "Unacknowledged deliveries are redelivered at their deadline: the actor's expiry branch", HDR_ALOOP, "ActorLoopP.v", [
+ ("C04_loop_expiry_enabled", "always_expiry_enabled", "the subscription actor's loop at the granularity request arrives / publish / serve / pull / a deadline passes / the expiry branch, with the expiry branch unconditional (the code): whenever a lease has run out the actor has a step that returns every such lease to the backlog and touches nothing else - whatever is queued, leased or waiting"),
+ ("C04_loop_idle_nothing_expired", "always_idle_nothing_expired", "hence an actor that has no step of its own left holds no lease that has run out"),
+ ("C04_loop_conserves", "actor_steps_conserve", "either variant: every step of the actor conserves leased + run-out + queued messages (the expiry step loses nothing and invents nothing)"),
+ ("C04_loop_guarded_refuted", "ifempty_refuted", "with the precondition `if backlog.is_empty()` on the expiry branch (seeded change C04-r8): one lease run out, one message unpulled, nobody asking is an idle state - the lease stays outstanding for as long as nobody pulls"),
+ ("C04_loop_guarded_reachable", "ifempty_stuck_reachable", "and that state is reached by publish, pull, publish, the deadline passes (on the implementation: the expiry-with-backlog stream)"),
+ ("C04_loop_same_schedule", "always_same_schedule", "the same schedule with the unconditional branch: both messages are back in the backlog"),
+])
 HDR_PPASS = "From Coq Require Import List Arith Bool NArith.\nImport ListNotations.\nFrom Deltio Require Import Model.PushPass Proofs.PushPassP.\n"
 PX("C14", "C14_pass_deletion", "Push subscriptions deliver at least once until the endpoint accepts: a pass under way stops when the subscription is deleted", HDR_PPASS, "PushPassP.v", [
  ("C14_pass_no_post_after_delete", "whole_no_late_post", "one pass of the push loop at the granularity pull / dispatch one message / answer / finish / the deleted signal fires, every schedule of these events (events that are not enabled are skipped), any page: with the whole pass raced against the deletion signal (the code) no POST is made once the subscription is deleted"),
